@@ -3343,3 +3343,23 @@ def t_incdec_wide(facts, res, tier):
         if missing:
             res.fail(key, facts.where(fn, arm["body"]), "generate_plusplus, arm %s: no step on the high byte is taken for %s (%s): `t[..]++` on a table of 16-bit values steps the low byte only through this arm" % (
                 want, " / ".join(sorted(missing)), "%d high byte step(s), conditions name %s" % (steps, sorted(types)) if steps else "the arm has no high byte step at all"))
+
+
+@rule("T-CMP16-SIGN", floor=1,
+      text="generate_condition_16bits compares a 16-bit value with zero by handing its high byte to generate_condition_ex as an accumulator value "
+           "`ExprType::A(signed)`; that flag decides between the signed branches (BMI / BPL on the high byte) and the unsigned ones.  The flag is that of "
+           "the operand (its variable's `signed`), not a literal: with a literal `true` an `unsigned short a >= 0x8000` is negative for `a > 0`, "
+           "`a >= 0`, `a < 0`, `a <= 0`")
+def t_cmp16_sign(facts, res, tier):
+    fn = facts.fn("generate_condition_16bits", genmodel.GEN_QUAL)
+    n = 0
+    for x in walk(fn["body"]):
+        if x.get("k") == "call" and expr_text(x["func"]).replace(" ", "") == "ExprType::A" and len(x["args"]) == 1:
+            n += 1
+            a = x["args"][0]
+            key = "T-CMP16-SIGN:generate_condition_16bits:A(%s)" % expr_text(a).replace(" ", "")[:20]
+            res.inst(key, True, {"signedness": expr_text(a)[:40]})
+            if a.get("k") == "lit":
+                res.fail(key, facts.where(fn, x), "generate_condition_16bits gives the high byte of the compared value the signedness `%s` whatever the operand is: an unsigned 16-bit value with bit 15 set is taken for negative" % expr_text(a))
+    if n == 0:
+        raise AnchorMissing("generate_condition_16bits: no ExprType::A(..) built")
